@@ -10,7 +10,9 @@ EXPLANATION = (
     "validate_read_size; (R04c) defragmentation truncates and clears the free list inside its bracket.")
 DECIDED = ["R04a record table and on-disk headers move together (MUST over all success paths)",
            "R04b reads are bounds-checked against the record (DOM / cut on the validator's Ok edge)",
-           "R04c optimize_storage ends with truncate then clear_free before commit"]
+           "R04c optimize_storage ends with truncate then clear_free before commit",
+           "R04c (cont.) optimize_storage has no early exit",
+           "R04d left-over free regions always get a header (guard compares with zero or two sizes)"]
 UNDECIDED = ["free-list arithmetic (take_free, take_free_after, mark_free_compact, enlarge_in_place remainders)",
              "byte equality of values after arbitrary histories"]
 
